@@ -24,6 +24,7 @@ EXPLANATION = (
     "non-commuting body (known finding, shared with C11). Does not decide: that holder.read/write are right (C01), nor "
     "order-independence of the fold as a theorem."
     ' R03.5 / R03.6 are shared clauses of C05: the splitter hands over every statement once and in order, one holder per statement.'
+    ' R03.6 also imports R05.3 (nothing an extractor collected for an earlier statement is left in it); R03.7 (= R18.1) the export lists every edge of the graph it is given, self-references included.'
 )
 RULE_TEXT = (
     "R03.1: 3 predicates x all feasible valuations of 5 atoms (exhaustive) + tag-dependency obligations; R03.2-4: one obligation per "
